@@ -500,6 +500,9 @@ func (m *Model) mustKeep(r *MRepo, now time.Time) map[string]int {
 				addB(c)
 			}
 		}
+		if !m.k.referrerOn() {
+			continue // with the referrers API switched off a manifest that names a subject is a manifest like any other
+		}
 		for ad, a := range r.mans {
 			if a.view.subject == d {
 				addM(ad)
